@@ -1171,7 +1171,16 @@ func c11JKCorpus() []c11JKCase {
 type c11HCCase struct {
 	Variant string   `json:"variant"` // novary vary-user vary-other vary-both nostore
 	Method  string   `json:"method"`
+	Payload bool     `json:"payload"` // payload p={{ .Subject.ID }}
 	Subs    []string `json:"subs"`
+}
+
+func (c c11HCCase) body(sub string) string {
+	if c.Payload {
+		return "p=" + sub
+	}
+
+	return ""
 }
 
 func c11HCVary(variant string) []string {
@@ -1200,6 +1209,7 @@ func c11NewHCSrv() *c11HCSrv {
 		h.calls++
 		h.mu.Unlock()
 
+		reqBody, _ := io.ReadAll(r.Body)
 		variant := strings.TrimPrefix(r.URL.Path, "/h/")
 		vary := c11HCVary(variant)
 		body := "static"
@@ -1212,6 +1222,10 @@ func c11NewHCSrv() *c11HCSrv {
 
 			body = strings.Join(vals, "|")
 			w.Header().Set("Vary", strings.Join(vary, ", "))
+		}
+
+		if r.Method == http.MethodPost {
+			body += "#" + string(reqBody)
 		}
 
 		if variant == "nostore" {
@@ -1231,12 +1245,17 @@ func (h *c11HCSrv) runHC(c c11HCCase) ([]c11Obs2, *c11Sha, string) {
 	tab := &c11Sha{dig: map[string]string{}}
 	url := h.srv.URL + "/h/" + c.Variant
 
+	mc := config.MechanismConfig{
+		"endpoint": map[string]any{"url": url, "method": c.Method,
+			"headers":    map[string]any{"X-User": "{{ .Subject.ID }}", "X-Other": "o1"},
+			"http_cache": map[string]any{"enabled": true, "default_ttl": "5m"}},
+		"cache_ttl": "0s"}
+	if c.Payload {
+		mc["payload"] = "p={{ .Subject.ID }}"
+	}
+
 	mf, err := NewMechanismFactory(&config.Configuration{Prototypes: &config.MechanismPrototypes{
-		Contextualizers: []config.Mechanism{{ID: "hc", Type: "generic", Config: config.MechanismConfig{
-			"endpoint": map[string]any{"url": url, "method": c.Method,
-				"headers":    map[string]any{"X-User": "{{ .Subject.ID }}", "X-Other": "o1"},
-				"http_cache": map[string]any{"enabled": true, "default_ttl": "5m"}},
-			"cache_ttl": "0s"}}},
+		Contextualizers: []config.Mechanism{{ID: "hc", Type: "generic", Config: mc}},
 	}}, zerolog.Nop(), nil, nil, nil)
 	if err != nil {
 		return nil, tab, "config_rejected: " + err.Error()
@@ -1298,7 +1317,7 @@ func (h *c11HCSrv) coqHC(c c11HCCase, obs []c11Obs2, tab *c11Sha, status string)
 	url := h.srv.URL + "/h/" + c.Variant
 
 	if status != "" {
-		return "(HC [] (hcc \"rejected\" \"\" [] false) [([], ob2 (Some \"rejected\") false 0 OErr OErr)])"
+		return "(HC [] (hcc \"rejected\" \"\" [] false) [(hrq [] \"\", ob2 (Some \"rejected\") false 0 OErr OErr)])"
 	}
 
 	out := func(s string) string {
@@ -1314,7 +1333,7 @@ func (h *c11HCSrv) coqHC(c c11HCCase, obs []c11Obs2, tab *c11Sha, status string)
 	for i, sub := range c.Subs {
 		hdrs := vf.CoqList([]string{vf.CoqPair(vf.CoqStr("X-Other"), vf.CoqStr("o1")), vf.CoqPair(vf.CoqStr("X-User"), vf.CoqStr(sub))})
 		o := obs[i]
-		steps = append(steps, vf.CoqPair(hdrs, vf.CoqApp("ob2", c11OptKey(o.Key), vf.CoqBool(o.Hit), vf.CoqNat(o.Calls), out(o.Out), out(o.Fresh))))
+		steps = append(steps, vf.CoqPair(vf.CoqApp("hrq", hdrs, vf.CoqStr(c.body(sub))), vf.CoqApp("ob2", c11OptKey(o.Key), vf.CoqBool(o.Hit), vf.CoqNat(o.Calls), out(o.Out), out(o.Fresh))))
 	}
 
 	return vf.CoqApp("HC", c11CoqSha(tab), vf.CoqApp("hcc", vf.CoqStr(url), vf.CoqStr(c.Method), vf.CoqStrs(c11HCVary(c.Variant)),
@@ -1323,7 +1342,7 @@ func (h *c11HCSrv) coqHC(c c11HCCase, obs []c11Obs2, tab *c11Sha, status string)
 
 func c11GenHC(r *vf.Rand) c11HCCase {
 	c := c11HCCase{Variant: vf.Pick(r, []string{"novary", "vary-user", "vary-user", "vary-other", "vary-both", "nostore"}),
-		Method: vf.Pick(r, []string{"GET", "GET", "GET", "POST"})}
+		Method: vf.Pick(r, []string{"GET", "GET", "POST", "POST"}), Payload: r.Chance(60)}
 	n := 2 + r.Intn(4)
 
 	for i := 0; i < n; i++ {
@@ -1451,7 +1470,7 @@ func TestVerifC11Keys(t *testing.T) {
 	emitHC := func(stream string, c c11HCCase) {
 		if vf.Want(idx) {
 			obs, tab, status := hs.runHC(c)
-			tags := []string{"kind:http-cache", "variant:" + c.Variant, "method:" + c.Method, fmt.Sprintf("steps:%d", len(c.Subs))}
+			tags := []string{"kind:http-cache", "variant:" + c.Variant, "method:" + c.Method, fmt.Sprintf("payload:%t", c.Payload), fmt.Sprintf("steps:%d", len(c.Subs))}
 
 			for _, o := range obs {
 				tags = append(tags, "site:http-cache:lookup")
@@ -1483,6 +1502,8 @@ func TestVerifC11Keys(t *testing.T) {
 	emitHC("corpus", c11HCCase{Variant: "novary", Method: "GET", Subs: []string{"alice", "bobby", "alice"}})
 	emitHC("corpus", c11HCCase{Variant: "vary-other", Method: "GET", Subs: []string{"alice", "bobby"}})
 	emitHC("corpus", c11HCCase{Variant: "vary-user", Method: "GET", Subs: []string{"alice", "bobby", "alice"}})
+	// C11-F9: POST answered from the cache although the body differs
+	emitHC("corpus", c11HCCase{Variant: "novary", Method: "POST", Payload: true, Subs: []string{"alice", "bobby"}})
 
 	for _, c := range c11JFCorpus() {
 		emitJF("corpus", c)
